@@ -214,7 +214,7 @@ def pad_limit(rep: C.Report) -> None:
                 ob.confirmed_conditions += 1
             else:
                 bad.append(fname)
-        if not bad:
+        if not bad and not C.distrust():
             ob.verdict = C.DISCHARGED
             return
         from wikitextprocessor import Wtp
@@ -351,7 +351,7 @@ def expr_precedence(rep: C.Report) -> None:
             if len(bad_pairs) > 40:
                 break
         ob.samples.append({"ladder": [(p, t) for p, _, t in chain], "operators_missing_from_tables": missing, "misordered_pairs": bad_pairs[:10]})
-        if not bad_pairs and not missing:
+        if not bad_pairs and not missing and not C.distrust():
             ob.verdict = C.DISCHARGED
             ob.confirmed_conditions = 1
             return
